@@ -34,10 +34,17 @@ func New(srcDir, moqPkg string) (*Registry, error) {
 		return nil, fmt.Errorf("couldn't load source package: %s", err)
 	}
 
+	moqPkgPath := srcPkg.PkgPath
+	// A mock package named like the source package is the source package
+	// (the mocker treats it that way as well): it must not import itself.
+	if moqPkg != srcPkg.Name {
+		moqPkgPath = findPkgPath(moqPkg, srcPkg.PkgPath)
+	}
+
 	return &Registry{
 		srcPkgName:  srcPkg.Name,
 		srcPkgTypes: srcPkg.Types,
-		moqPkgPath:  findPkgPath(moqPkg, srcPkg.PkgPath),
+		moqPkgPath:  moqPkgPath,
 		aliases:     parseImportsAliases(srcPkg.Syntax),
 		imports:     make(map[string]*Package),
 	}, nil
